@@ -1275,14 +1275,20 @@ class Concrete:
         self.tags = {}
         self.failed = []  # labels of obligations that failed
 
+    def _value(self, name):
+        if name not in self.values and self.failed:
+            # the symbolic run stopped at the obligation that already failed here; inputs created after it are not in the model
+            raise _Abort()
+        return self.values[name]
+
     def int(self, name, lo=None, hi=None):
-        v = self.values[name]
+        v = self._value(name)
         if (lo is not None and v < lo) or (hi is not None and v > hi):
             raise _Abort()
         return v
 
     def real(self, name):
-        v = self.values[name]
+        v = self._value(name)
         if isinstance(v, (list, tuple)):
             from fractions import Fraction
 
